@@ -21,13 +21,14 @@ CONSTANTS
   CfgHbOverride = %(hbOverride)s
   MaxIn = %(maxIn)d
   MaxOut = %(maxOut)d
+  MaxEp = %(maxEp)d
 VIEW View
 %(props)s
 CHECK_DEADLOCK FALSE
 '''
 
 DEFAULTS = dict(role='acc', bs=42, chunk=0, persist=True, resetOnLogon=False, resetOnLogout=False,
-                resetOnDisconnect=False, checkLatency=True, hbOverride=False, maxIn=6, maxOut=3)
+                resetOnDisconnect=False, checkLatency=True, hbOverride=False, maxIn=6, maxOut=3, maxEp=2)
 
 
 def tla_bool(b):
@@ -286,7 +287,7 @@ def signature(prop, clause, pre, row):
 
 
 def standard_run(ctx, pid, family, props, confs, quick_budget, thorough_budget, statement, stores=None, extra_scripts=None,
-                 maxlen=30):
+                 maxlen=30, quick_bounds=None, thorough_bounds=None):
     import time
     quick = ctx.tier == 'quick'
     ctx.build()
@@ -295,8 +296,8 @@ def standard_run(ctx, pid, family, props, confs, quick_budget, thorough_budget, 
     t0 = time.time()
     for conf in confs:
         conf = dict(conf)
-        if not quick:
-            conf.setdefault('maxOut', 4)
+        for k, v in ((quick_bounds if quick else thorough_bounds) or ({} if quick else {'maxOut': 4})).items():
+            conf.setdefault(k, v)
         g, k = fam.model(conf, maxlen=maxlen, switch_budget=(quick_budget if quick else thorough_budget),
                          cover='class' if quick else 'edges')
         kinds |= k
@@ -348,7 +349,7 @@ def standard_run(ctx, pid, family, props, confs, quick_budget, thorough_budget, 
         'panicked_scripts': len(fam.panics),
     })
     ctx.assumptions += ['the synchronous driver calls the state machine entry points the run loop calls, one event at a time',
-                        'bounded model: expected inbound number <= %d, outbound <= %d' % (DEFAULTS['maxIn'], DEFAULTS['maxOut'] if quick else 4)]
+                        'bounded model: %s' % ((quick_bounds if quick else thorough_bounds) or DEFAULTS)]
     return fam
 
 
